@@ -102,10 +102,16 @@ def build(case):
     def flag(v):
         v = bool(v)
         return v if ft == "bool" else (np.bool_(v) if ft == "np" else int(v))
+    def np_marks(votes):
+        # the same marks held as numpy scalars (a row of a marks table / dataframe): np.int64(7), np.bool_(True)
+        if not case.get("np_marks"):
+            return votes
+        conv = lambda x: (np.bool_(x) if isinstance(x, bool) else np.int64(x) if isinstance(x, int) else x)
+        return {kk: {c_: conv(x) for c_, x in v.items()} for kk, v in votes.items()}
     # CVRs: half through from_dict, the explicit phantoms through the constructor
     cvrs = []
     for i, c in enumerate(case["cvrs"]):
-        votes = {kk: dict(v) for kk, v in c["votes"].items()}
+        votes = np_marks({kk: dict(v) for kk, v in c["votes"].items()})
         if c.get("ctor"):
             cvrs.append(CVR(id=c["id"], votes=votes, phantom=flag(c.get("phantom", False)),
                             tally_pool=c.get("tally_pool"), pool=flag(c.get("pool", False))))
@@ -146,7 +152,7 @@ def build(case):
     for i, c in enumerate(cvrs):
         if i < len(case["mvrs"]):
             m = case["mvrs"][i]
-            mvrs.append(CVR(id=c.id, votes={kk: dict(v) for kk, v in m["votes"].items()}, phantom=flag(m.get("phantom", False))))
+            mvrs.append(CVR(id=c.id, votes=np_marks({kk: dict(v) for kk, v in m["votes"].items()}), phantom=flag(m.get("phantom", False))))
         else:
             mvrs.append(CVR(id=c.id, votes={}, phantom=flag(True)))
     A = asn.assorter.assort
@@ -824,6 +830,7 @@ def gen_one(rng):
     # type of the boolean flags handed to the CVR constructor (phantom / pool): bool, numpy bool, int
     case["flag_type"] = rng.choice(["bool", "bool", "np", "int"])
     case["direct"] = scf != "IRV" and rng.chance(0.4)     # assertion built by the direct constructor call
+    case["np_marks"] = scf != "IRV" and rng.chance(0.15)   # marks held as numpy scalars
     _ctor_means = rng.chance(0.2)                          # Assertion(...) with preliminary pool means (filled in below)
     case["use_style"] = rng.chance(0.6)
     r = rng.random()
